@@ -58,6 +58,8 @@ def validate(cases, chk, tag):
     for k, c in enumerate(cases):
         if isinstance(c.events, dict):  # crashed
             continue
+        if c.what.startswith("ref-result"):   # programs with references: EngineTrace does not model them (Dataflow does)
+            continue
         items.append({"id": k, "prog": P.to_json_programs([c.prog])[0], "ev": c.events})
     verdicts, st, tr = tracecheck.validate("EngineTrace", "EngineTrace.cfg", items, tag)
     chk.coverage["states"] += st
@@ -86,7 +88,7 @@ def judge(pid, cases, verdicts, chk, own_prefixes, stream_is_mine=True):
             chk.violation("stream:" + c.what, "real run differs from spec/Dataflow.tla: " + diff, replay_text(c, diff))
         elif diff:
             other["stream"] = other.get("stream", 0) + 1
-        acc, why = verdicts.get(k, (0, "trace.missing"))
+        acc, why = verdicts.get(k, (0, "" if c.what.startswith("ref-result") else "trace.missing"))
         if why:
             if why.startswith(tuple(own_prefixes)):
                 ev = c.events_kept[acc] if hasattr(c, "events_kept") else None
@@ -837,6 +839,23 @@ def check_c09(chk, rng):
                     cases.append(Case(p, pred, P.render(p, group=g, mode=mode, depth=depth, outer=outer),
                                       "%s/%d%s" % (mode, depth, ("+captured" + "".join(str(j) for j in outer)) if outer else "")))
             groups.append(idx)
+    # sub-graphs whose RESULT is a reference (a selection made inside, dereferenced at the boundary): re-pointing it in a
+    # later cycle must reach the outside in that cycle, at any depth
+    rprogs = [ref_program(rng, 70000 + i, rng.choice([6, 7, 9])) for i in range(60 if chk.tier == "quick" else 900)]
+    rpreds, rres = dfcheck.predict(rprogs, tag="c09ref")
+    chk.add_tlc(rres, "reference-results")
+    for p in rprogs:
+        refs = {i for i, nd in enumerate(p["nodes"], 1) if nd["kind"] == "ite"}
+        gs = [g for g in P.candidate_groups(p) if g[2] in refs]
+        gs = [g for g in gs if not any(g[2] in p["nodes"][r - 1]["ins"] for r in refs if r not in g[0])]
+        gs = [g for g in gs if not any(j in refs and j not in g[0] for r in refs if r in g[0] for j in p["nodes"][r - 1]["ins"])]
+        rng.shuffle(gs)
+        for g in gs[:1]:
+            idx = []
+            for mode, depth in (("inline", 1), ("nested", 1), ("nested", 2)):
+                idx.append(len(cases))
+                cases.append(Case(p, rpreds[p["id"]], P.render(p, group=g, mode=mode, depth=depth), "ref-result-%s/%d" % (mode, depth)))
+            groups.append(idx)
     execute(cases)
     verdicts = validate(cases, chk, "c09")
     judge("C09", cases, verdicts, chk, ("C09.",), stream_is_mine=False)
@@ -852,7 +871,10 @@ def check_c09(chk, rng):
         # differential at trace level: a rule of the engine that the inlined presentation satisfies and the
         # nested one breaks (e.g. a consumer of the sub-graph's output sees it modified when nothing inside
         # wrote it) means the sub-graph does not behave the same nested as inlined
-        v0 = verdicts.get(idx[0], (0, "trace.missing"))[1]
+        if cases[idx[0]].what.startswith("ref-result"):
+            v0 = "skip"     # no trace-level differential for these (streams are compared below)
+        else:
+            v0 = verdicts.get(idx[0], (0, "trace.missing"))[1]
         for k in idx[1:]:
             vk = verdicts.get(k, (0, "trace.missing"))
             if vk[1] and not vk[1].startswith("C09.") and not v0:
